@@ -24,14 +24,21 @@ def run(ctx):
     watch = ctx.facts.get("StoreFacts.watchSpec")
     if not watch:
         ctx.broken("translator produced no watch table (registerControllers not understood)", kind="obligation")
-    n, maxops, maxfail = (160, 26, 10) if ctx.tier == "quick" else (6000, 60, 60)
+    n, maxops, maxfail, chunks = (150, 26, 10, 1) if ctx.tier == "quick" else (1100, 60, 120, 8)
 
     runs = []
     corpus = sorted(glob.glob(os.path.join(vcheck.VERIF, "corpus", "C01", "*.json")))
     wargs = ["-watch", watch] if watch else []
     if corpus:
         runs.append(("corpus", ctx.harness(["-replay", ",".join(corpus), "-maxfail", 1000] + wargs)))
-    runs.append(("gen", ctx.harness(["-seed", ctx.seed, "-n", n, "-maxops", maxops, "-maxfail", maxfail] + wargs)))
+    def gen(i):
+        return (f"gen{i}", ctx.harness(["-seed", ctx.seed * 64 + i, "-n", n, "-maxops", maxops, "-maxfail", maxfail] + wargs))
+    if chunks == 1:
+        runs.append(("gen", ctx.harness(["-seed", ctx.seed, "-n", n, "-maxops", maxops, "-maxfail", maxfail] + wargs)))
+    else:
+        from concurrent.futures import ThreadPoolExecutor
+        with ThreadPoolExecutor(max_workers=chunks) as ex:
+            runs += list(ex.map(gen, range(chunks)))
     if not getattr(ctx, "harness_ok", False):
         ctx.broken("harness does not build against the current tree", detail="\n".join(ctx.build_errors))
 
